@@ -63,6 +63,8 @@ def make_x(rng, N, T, rest, lens, dtype, garbage="mixed", base=None):
 
 def _base(rng, tier, fn, T=None, N=None, dtype=None):
     Tmax = 9
+    if T is None and rng.random() < 0.07:
+        T = rng.choice([17, 24, 40, 130])  # far longer than the rest of the workload (sort / block-wise code paths)
     T = rng.randint(1, Tmax) if T is None else T
     N = rng.randint(1, 5) if N is None else N
     if dtype is None:
